@@ -1,10 +1,10 @@
 (* C10, liveness clause ("every join eventually returns").
 
    The sleep/wake handshake between the job queue and the sleeping workers AS IT WAS before
-   fixes/C10/01+02 ([c_fixed = false]) has a reachable state in which a client is blocked in join(),
+   fixes/C10/01-03 ([c_fixed = false]) has a reachable state in which a client is blocked in join(),
    its job is queued and every thread is blocked for ever: the witness below (found by the explicit
    state search of ocaml/future_driver.ml, 1 client, pool 0..3, queue 4) is replayed by vm_compute.
-   For the code as it is now ([c_fixed = true]) the same search space (8.9 million states) has no
+   For the code as it is now ([c_fixed = true]) the same search space (bounded windows, up to 15 million states) has no
    such state; that is a search result, not a theorem (see the check's level_note).  What is proved
    for all schedules here: a state in which every thread is blocked can never change again. *)
 From Coq Require Import ZArith List Bool Lia Arith.
